@@ -52,7 +52,7 @@ NOT_APPLICABLE = {
 }
 
 # checks built by builder sub-agents: their manifest text lives in checks/<id>.meta.json
-FROM_META = ["C07", "C06", "C01", "C19", "C20", "C13", "C14", "C18", "C11", "C12"]
+FROM_META = ["C07", "C06", "C01", "C19", "C20", "C13", "C14", "C18", "C11", "C12", "C15", "C16", "C17"]
 
 
 def main():
